@@ -19,7 +19,7 @@ import subprocess
 import time
 
 CHECK_RE = re.compile(
-    r"^Check (\d+): (.+)\n\t - Status: (\w+)\n\t - Description: \"(.*)\"\n(?:\t - Location: (.*)\n)?",
+    r"^Check (\d+): (.+)\n\t - Status: (\w+)\n\t - Description: \"((?:.|\n(?!\t - |Check \d|\n))*)\"\n(?:\t - Location: (.*)\n)?",
     re.M)
 
 
@@ -147,7 +147,7 @@ def parse_log(text, res, only_tag=None, expected_panics=False):
             undetermined = True
     res.covers = (cov_sat, cov_tot)
     res.unsat_covers = unsat
-    if "ran out of memory" in text or "std::bad_alloc" in text:
+    if "ran out of memory" in text or "std::bad_alloc" in text or "appears to have run out of memory" in text or "memory allocation of" in text:
         res.verdict = "OOM"
         res.note = "solver ran out of memory (never a pass)"
         return
@@ -253,13 +253,20 @@ def run_query(cwd, harness, target_dir, log_path, cap_s, mem_gb=14, features=Non
         blocks = re.findall(r"```\n(.*?)```", text, re.S)
         chosen = None
         for b in blocks:
-            m = re.search(r"/// Check for `(\w+)`: \"(.*)\"", b)
-            kind, desc = (m.group(1), m.group(2)) if m else ("", "")
-            if kind == "cover":
+            # the doc comment in front of the test may span several lines (multi-line assert
+            # expressions) of which only the first carries `///`: cut it off and keep the test
+            k = b.find("#[test]")
+            if k < 0:
+                continue
+            hdr, b = b[:k], b[k:]
+            m = re.search(r"Check for `(\w+)`: \"(.*)\"", hdr, re.S)
+            kind, desc = (m.group(1), " ".join(m.group(2).split())) if m else ("", "")
+            if kind == "cover" or not m:
                 continue
             if only_tag is not None and only_tag not in desc:
                 continue
-            if only_tag is None and res.failed and not any(desc in f[1] or f[1] in desc for f in res.failed):
+            if only_tag is None and res.failed and not any(desc in " ".join(f[1].split()) or " ".join(f[1].split()) in desc
+                                                           for f in res.failed):
                 continue
             chosen = b
             break
